@@ -9,12 +9,58 @@ InterpreterEnv* env;
 Instance instance;
 int count = 0;
 char** script_lines;
+int p2sh_lines_start = -1;
 
 #define fail(msg...) do { fprintf(stderr, msg); return 0; } while (0)
+
+// The redeem script of a P2SH spend is whatever is on top of the stack when the scriptPubKey takes over: what the last push
+// still to come in the scriptSig leaves there or, once the scriptSig has been executed, the top of the stack as it is (`exec`
+// may have changed it). False when there is no redeem script to come (no P2SH output, or it is being executed already).
+static bool predicted_redeem_script(CScript& redeem) {
+    valtype payload;
+    if (env->successor_script.size()) {
+        if (!(env->flags & SCRIPT_VERIFY_P2SH) || !env->successor_script.IsPayToScriptHash()) return false;
+        if (!env->stack.empty()) payload = env->stack.back();
+        CScript::const_iterator it = env->pc;
+        opcodetype opcode;
+        valtype push;
+        while (it < env->script.end() && env->script.GetOp(it, opcode, push)) {
+            // what the operation leaves on the stack (OP_1NEGATE and OP_1..OP_16 push a number without carrying push data)
+            if (opcode == OP_1NEGATE || (opcode >= OP_1 && opcode <= OP_16)) {
+                payload = CScriptNum((int)opcode - (int)(OP_1 - 1)).getvch();
+            } else if (opcode <= OP_PUSHDATA4) {
+                payload = push;
+            }
+        }
+    } else if (env->is_p2sh && env->p2shstack.size() > 0) {
+        payload = env->p2shstack.back();
+    } else {
+        return false;
+    }
+    redeem = CScript(payload.begin(), payload.end());
+    return true;
+}
+
+void relist_p2sh() {
+    CScript redeem;
+    if (p2sh_lines_start < 0 || !predicted_redeem_script(redeem)) return;
+    std::vector<std::string> lines;
+    CScript::const_iterator it = redeem.begin();
+    opcodetype opcode;
+    valtype push;
+    while (redeem.GetOp(it, opcode, push)) {
+        lines.push_back(strprintf("#%04d ", p2sh_lines_start + (int)lines.size()) + (push.size() > 0 ? HexStr(push) : std::string(GetOpName(opcode))));
+    }
+    for (int i = p2sh_lines_start; i < count; ++i) free(script_lines[i]);
+    count = p2sh_lines_start + (int)lines.size();
+    script_lines = (char**)realloc(script_lines, sizeof(char*) * (count > 0 ? count : 1));
+    for (size_t i = 0; i < lines.size(); ++i) script_lines[p2sh_lines_start + i] = strdup(lines[i].c_str());
+}
 
 int fn_step(const char* arg) {
     if (env->done) fail("at end of script\n");
     if (!instance.step()) fail("error: %s\n", instance.error_string().c_str());
+    relist_p2sh();
     print_dualstack();
     if (env->curr_op_seq < count) {
         printf("%s\n", script_lines[env->curr_op_seq]);
@@ -25,6 +71,7 @@ int fn_step(const char* arg) {
 int fn_rewind(const char* arg) {
     if (instance.at_start()) fail("error: no history to rewind\n");
     if (!instance.rewind()) fail("error: failed to rewind; this is a bug\n");
+    relist_p2sh();
     print_dualstack();
     if (env->curr_op_seq < count) {
         printf("%s\n", script_lines[env->curr_op_seq]);
@@ -88,30 +135,10 @@ void print_dualstack() {
     scripts.push_back(&env->script);
     headers.push_back("");
     CScript p2sh_script;
-    bool has_p2sh = false;
-    if (env->is_p2sh && env->p2shstack.size() > 0) {
-        has_p2sh = true;
-        const valtype& p2sh_script_val = env->p2shstack.back();
-        p2sh_script = CScript(p2sh_script_val.begin(), p2sh_script_val.end());
-    }
+    const bool has_p2sh = predicted_redeem_script(p2sh_script);
     if (env->successor_script.size()) {
         scripts.push_back(&env->successor_script);
         headers.push_back("<<< scriptPubKey >>>");
-        if ((env->flags & SCRIPT_VERIFY_P2SH) && env->successor_script.IsPayToScriptHash()) {
-            has_p2sh = true;
-            CScript::const_iterator it = env->script.begin();
-            opcodetype opcode;
-            valtype vchPushValue, p2sh_script_payload;
-            while (env->script.GetOp(it, opcode, vchPushValue)) {
-                // what the operation leaves on the stack (OP_1NEGATE and OP_1..OP_16 push a number without carrying push data)
-                if (opcode == OP_1NEGATE || (opcode >= OP_1 && opcode <= OP_16)) {
-                    p2sh_script_payload = CScriptNum((int)opcode - (int)(OP_1 - 1)).getvch();
-                } else {
-                    p2sh_script_payload = vchPushValue;
-                }
-            }
-            p2sh_script = CScript(p2sh_script_payload.begin(), p2sh_script_payload.end());
-        }
     }
     if (has_p2sh) {
         scripts.push_back(&p2sh_script);
@@ -412,6 +439,7 @@ int fn_exec(const char* arg) {
         return 0;
     }
     instance.eval(argc, argv);
+    relist_p2sh(); // (the redeem script of a P2SH spend is taken from the stack, which exec may just have changed)
     print_dualstack();
     kerl_free_argcv(argc, argv);
     return 0;
